@@ -412,7 +412,7 @@ def run(tier):
     chk.coverage = {
         'evaluations': len(cases),
         'distinct_nontrivial': len(seen_nontrivial),
-        'rule': 'token lists joined with varying whitespace; exhaustive 14^k operator chains k<=4 over identifier operands, chains with '
+        'rule': '+ round 7: plus-signed literals at operand positions with expected trees; token lists joined with varying whitespace; exhaustive 14^k operator chains k<=4 over identifier operands, chains with '
                 'group/unary/call/number/string/bracket operands, random nested trees, mutated/soup token lists (accept/reject) and raw '
                 'character fuzz; non-trivial = accepted by the reference with >= 2 binary operators, distinct by text',
         'exhaustive': True,
